@@ -41,6 +41,10 @@ checks={
    technique="exhaustive crash-point enumeration: every file-system write operation index of every history x {keep, drop unsynced}, freeze, copy, reopen the real store, evaluate recovery clauses",
    text="6 put histories (crossing capacity, overwrite, empty and oversize values, stores left at 94% / 96% / 100% of capacity, many small items then a prune) x 2 pebble configurations (defaults; 128 kB memtable with eager L0 compaction so that flushes, sstables, manifest edits, WAL rotation and compactions occur) on pebble's strict in-memory FS. For every write-kind FS operation index k (58-123 per history) and both loss models the world is frozen at k, the tree copied and reopened with pebble.Open + NewStorage: open succeeds; every item present (scan and Get) is byte-identical to a value put under that id before the cut; persisted and in-memory usage >= bytes present; an over-capacity store is pruned on open; radius is the maximum at <= 95% (or when nothing is retained) and the farthest retained key above; then two further puts are checked.",
    note="Fail-stop at operation boundaries, all-or-nothing loss of unsynced data, no torn writes (pebble's MemFS models neither). Where the fault-free operation count varies between runs the evidence says exhaustive:false.", design="5/C17"),
+ "C02": dict(level="exploration", engine="E1",
+   technique="exhaustive enumeration of bit/byte/truncation/extension/splice/cross-pairing mutants of genuine and synthetic (key, content) vectors x header-source answers through the real validator, validateContents and the block getters against an independent reference",
+   text="100 seeds (26 genuine mainnet blocks from all four proof eras by hash and by number, bodies and receipts of nine mainnet blocks; 18 synthetic blocks: legacy / Shanghai bodies x 0/1/3 transactions x uncles x withdrawals, empty and non-empty receipts). Per seed: honest pair accepted; every bit flip, byte mutation and truncation of the content (quick: strided above 4 kB), extensions, every bit / truncation / extension of the key, every ordered cross-pairing under four header-source answers, right header with one root changed / same roots other hash / error, re-encoding in the other SSZ container, field splices, multi-item batches; the validator returns nil only if the content is bound to the header whose hash (number) is the key's; nothing reaches Put and no getter returns unless validation passed (recording store; getters on two real nodes over loopback).",
+   note="Header-proof validity itself is C03's business (slot-only variants of beacon-era proofs are counted, not judged). The getter part runs real discv5/uTP on loopback UDP and is judged for soundness only.", design="5/C02"),
 }
 na_reason="check not built yet (work in progress; will be claimed once its checker exists)"
 m={"version":1,
